@@ -163,3 +163,142 @@ def add_epnames(reg, from_ep_name_cls=None):
     for s in specs:
         reg.add(s)
     return specs
+
+
+# ---- StoredMetadata: the name of a metadata object node <-> (schema, uuid) --------------------------------------------------------
+UUID_OF = z3.Function("UUID_of_text", S, S)  # uuid.UUID(text), identified by its canonical text (T: UUID(str(u)) == u)
+EPN_NAME = z3.Function("epn_name", S, S)
+EPN_VER = [z3.Function(f"epn_v{i}", S, I) for i in range(3)]
+
+T_STORED = [
+    "uuid.UUID(str(u)) == u and str(u) is 36 characters of hex digits and '-' (no '/', no '=')",
+    "obj.name of a raw node is its absolute path; StoredMetadata(uuid=, schema=, node=) is a plain record of the three",
+]
+
+
+class NodeNamed(SVal):
+    def __init__(self, name_t):
+        self.name_t = name_t
+
+    def py_getattr(self, cx, n):
+        if n == "name":
+            return SStr(self.name_t)
+        raise Unsupported("node attribute " + n)
+
+
+class Rec(SVal):
+    def __init__(self, kind, **kw):
+        self.kind, self.kw = kind, kw
+
+
+class SchemasNS(SVal):
+    def meth_PluginRef(self, cx, **kw):
+        return Rec("PluginRef", **kw)
+
+
+class FromNode(FnSpec):
+    file = "container/interface.py"
+    qual = "StoredMetadata.from_node"
+    props = ("C06", "C07", "C20")
+
+    def init(self):
+        self.bindings["EPName"] = lambda cx, s: (s if cx.decide(EP_OK(s.t)) else cx.py_raise("TypeError", "not an entry point name"))
+        self.bindings["from_ep_name"] = lambda cx, s: (SStr(EPN_NAME(s.t)), STuple(tuple(SInt(f(s.t)) for f in EPN_VER)))  # its own contract (C16)
+        self.bindings["UUID"] = lambda cx, s: Rec("UUID", text=s)
+        self.bindings["schemas"] = SchemasNS()
+        self.bindings["StoredMetadata"] = lambda cx, **kw: Rec("StoredMetadata", **kw)
+
+    def setup(self, cx):
+        prefix, epn, u = z3.String("meta_dir_path"), z3.String("ep_name_text"), z3.String("uuid_text")
+        for t in (epn, u):
+            cx.assume(z3.And(z3.Not(z3.Contains(t, z3.StringVal("/"))), z3.Not(z3.Contains(t, z3.StringVal("="))), z3.Length(t) > 0))
+        cx.assume(EP_OK(epn))
+        rest = z3.String("meta_dir_path_without_the_leading_slash")
+        cx.assume(z3.And(prefix == z3.Concat(z3.StringVal("/"), rest), z3.Length(rest) > 0, z3.Not(z3.PrefixOf(z3.StringVal("/"), rest))))  # absolute, normalised path of the metadata directory
+        obj = NodeNamed(z3.Concat(prefix, z3.StringVal("/"), epn, z3.StringVal("="), u))
+        a = A(obj=obj)
+        a.epn, a.u = epn, u
+        cx.ghost["hint_last_part"] = lambda t: t == z3.Concat(epn, z3.StringVal("="), u)  # the last path segment is <ep name>=<uuid>
+        return a
+
+    def raises(self, cx, a):
+        return {}
+
+    def ensures(self, cx, a, res):
+        ok = isinstance(res, Rec) and res.kind == "StoredMetadata" and set(res.kw) == {"uuid", "schema", "node"}
+        if not ok:
+            return [("a-record-of-uuid-schema-node", z3.BoolVal(False), "")]
+        uu, sch, node = res.kw["uuid"], res.kw["schema"], res.kw["node"]
+        shapes = isinstance(uu, Rec) and uu.kind == "UUID" and isinstance(sch, Rec) and sch.kind == "PluginRef" and set(sch.kw) == {"name", "version"}
+        if not shapes:
+            return [("a-record-of-uuid-schema-node", z3.BoolVal(False), "")]
+        nm, ver = sch.kw["name"], sch.kw["version"]
+        return [
+            ("uuid-is-the-text-after-the-equals-sign", uu.kw["text"].t == a.u, "the object's uuid is read from the last path segment, after '='"),
+            ("schema-is-the-entry-point-name-before-it", z3.And(nm.t == EPN_NAME(a.epn), *[x.t == f(a.epn) for x, f in zip(ver.items, EPN_VER)]), "its schema (name, version) is what the entry-point-style text before '=' encodes — whatever directory the object sits in"),
+            ("node-is-the-node-itself", z3.BoolVal(node is a.obj), "the record points at the very node"),
+        ]
+
+
+class ParentStub(SVal):
+    def __init__(self, name_t):
+        self.name_t = name_t
+
+    def py_getattr(self, cx, n):
+        if n == "name":
+            return SStr(self.name_t)
+        raise Unsupported("group attribute " + n)
+
+
+class ToPath(FnSpec):
+    file = "container/interface.py"
+    qual = "StoredMetadata.to_path"
+    props = ("C06", "C07", "C20")
+
+    def init(self):
+        self.bindings["to_ep_name"] = lambda cx, n, v: SStr(z3.Concat(n.t, SEP, sv_text(*[x.t for x in v.items])))  # its own contract (ToEpName), for a valid name
+
+    def setup(self, cx):
+        from pyvc.containers import SObj
+
+        a_, b_, c_ = _ver(cx)
+        me = SObj("StoredMetadata", name="self")
+        prefix, n, u = z3.String("meta_dir_path"), z3.String("schema_name"), z3.String("uuid_text")
+
+        class NodeS(SVal):
+            def py_getattr(s2, cx2, nm):
+                if nm == "parent":
+                    return ParentStub(prefix)
+                raise Unsupported("node attribute " + nm)
+
+        class RefS(SVal):
+            def py_getattr(s2, cx2, nm):
+                if nm == "name":
+                    return SStr(n)
+                if nm == "version":
+                    return STuple((SInt(a_), SInt(b_), SInt(c_)))
+                raise Unsupported("ref attribute " + nm)
+
+        class UuidS(SVal):
+            def py_str(s2, cx2):
+                return SStr(u)
+
+        me.fields["node"], me.fields["schema"], me.fields["uuid"] = NodeS(), RefS(), UuidS()
+        a = A(self=me)
+        a.want = z3.Concat(prefix, z3.StringVal("/"), n, SEP, sv_text(a_, b_, c_), z3.StringVal("="), u)
+        return a
+
+    def raises(self, cx, a):
+        return {}
+
+    def ensures(self, cx, a, res):
+        t = str_term(res)
+        return [("dir-slash-epname-equals-uuid", z3.BoolVal(False) if t is None else t == a.want, "the canonical path of a metadata object is <metadata dir>/<schema>__<version>=<uuid> — exactly the shape from_node reads back (FromNode), with to/from_ep_name inverse on it (C16)")]
+
+
+def add_stored(reg):
+    reg.set_class_home("StoredMetadata", "container/interface.py")
+    specs = [FromNode(), ToPath()]
+    for s in specs:
+        reg.add(s)
+    return specs
